@@ -104,3 +104,50 @@ uint64_t g_len, g_node; uint32_t* g_dfltp; uint64_t* g_offp;
 #define LOOP_CONSTRUCT_ID__B_for_cond INV_CONSTRUCT DEC_CONSTRUCT
 #define LOOPASG_CONSTRUCT_OFF__B_for_cond , TAB_GHOSTS
 #define LOOP_CONSTRUCT_OFF__B_for_cond INV_CONSTRUCT __CPROVER_loop_invariant(v_varTrans_slot.f0 == g_offp && *g_offp == g_off) DEC_CONSTRUCT
+
+/* ---------------- projectNode / renameNode: the value of the result under the ghost assignment is the projected / renamed value of
+   the operand; T_PVAL / T_RVAL are the specification functions, unfolded at the nodes the function touches ------------------------ */
+extern uint32_t T_PVAL[__CPROVER_constant_infinity_uint];
+extern uint32_t T_RVAL[__CPROVER_constant_infinity_uint];
+extern uint8_t  T_PRED[__CPROVER_constant_infinity_uint];     /* the variable predicate of Project (uninterpreted) */
+extern uint64_t T_REN[__CPROVER_constant_infinity_uint];      /* the renaming function of Rename (uninterpreted, strictly monotone: documented @note) */
+#define PUNFOLD_LEAF(n) (T_PVAL[n] == T_DATA[n])
+#define PUNFOLD_INT(n)  (T_PVAL[n] == (T_PRED[T_VAR[n]] != 0 ? OPF2(T_PVAL[T_LOW[n]], T_PVAL[T_HIGH[n]]) : (T_BIT[T_VAR[n]] == 2 ? T_PVAL[T_HIGH[n]] : T_PVAL[T_LOW[n]])))
+#define RLEVEL(n)       (ISLEAF(n) ? (uint64_t)0 : T_REN[T_VAR[n]] + 1)
+#define RUNFOLD_LEAF(n) (T_RVAL[n] == T_DATA[n])
+#define RUNFOLD_INT(n)  (T_RVAL[n] == (T_BIT[T_REN[T_VAR[n]]] == 2 ? T_RVAL[T_HIGH[n]] : T_RVAL[T_LOW[n]]) \
+                         && T_REN[T_VAR[n]] < UINT64_MAX && RLEVEL(T_LOW[n]) <= T_REN[T_VAR[n]] && RLEVEL(T_HIGH[n]) <= T_REN[T_VAR[n]] /* monotone renamer, instantiated */)
+#define CONTRACT_PROJECT_NODE \
+  __CPROVER_requires(v_node_coerce != 0 && g_inc_calls == 0) \
+  __CPROVER_assigns(REC_GHOSTS) \
+  __CPROVER_ensures(__CPROVER_return_value != 0 && T_VAL[__CPROVER_return_value] == T_PVAL[v_node_coerce] && LEVEL(__CPROVER_return_value) <= LEVEL(v_node_coerce) && g_inc_calls == 0)
+#define CONTRACT_RENAME_NODE \
+  __CPROVER_requires(v_node_coerce != 0 && g_inc_calls == 0) \
+  __CPROVER_assigns(REC_GHOSTS) \
+  __CPROVER_ensures(__CPROVER_return_value != 0 && T_VAL[__CPROVER_return_value] == T_RVAL[v_node_coerce] && LEVEL(__CPROVER_return_value) == RLEVEL(v_node_coerce) && g_inc_calls == 0)
+/* Project / Rename / ExtendWith / OndriksMTBDD(asgn, value, default) / constructMTBDD(asgn, value, default): one new, counted handle */
+#define CONTRACT_PROJECT \
+  __CPROVER_requires(v_this->f0.f0 != 0 && g_inc_calls == 0) \
+  __CPROVER_assigns(REC_GHOSTS, v_agg_result->f0.f0, v_agg_result->f1) \
+  __CPROVER_ensures(v_agg_result->f0.f0 != 0 && T_VAL[v_agg_result->f0.f0] == T_PVAL[v_this->f0.f0] && v_agg_result->f1 == v_this->f1 && g_inc_calls == 1 && g_inc_arg == v_agg_result->f0.f0)
+#define CONTRACT_RENAME \
+  __CPROVER_requires(v_this->f0.f0 != 0 && g_inc_calls == 0) \
+  __CPROVER_assigns(REC_GHOSTS, v_agg_result->f0.f0, v_agg_result->f1) \
+  __CPROVER_ensures(v_agg_result->f0.f0 != 0 && T_VAL[v_agg_result->f0.f0] == T_RVAL[v_this->f0.f0] && v_agg_result->f1 == v_this->f1 && g_inc_calls == 1 && g_inc_arg == v_agg_result->f0.f0)
+uint64_t g_cons_calls, g_cons_node, g_cons_ret; ASG* g_cons_asgn; uint32_t g_cons_dflt, g_cons_value; uint64_t g_cons_off;
+#define CONS_GHOSTS g_cons_calls, g_cons_node, g_cons_ret, g_cons_asgn, g_cons_dflt, g_cons_off, g_cons_value
+#define CONTRACT_EXTEND \
+  __CPROVER_requires(v_this->f0.f0 != 0 && g_cons_calls == 0) \
+  __CPROVER_assigns(REC_GHOSTS, CONS_GHOSTS, v_agg_result->f0.f0, v_agg_result->f1) \
+  /* exactly one constructMTBDD(asgn, root, default, var -> var + offset); its (already counted) result becomes the new handle */ \
+  __CPROVER_ensures(g_cons_calls == 1 && g_cons_asgn == v_asgn && g_cons_node == v_this->f0.f0 && g_cons_dflt == v_this->f1 && g_cons_off == *v_offset) \
+  __CPROVER_ensures(v_agg_result->f0.f0 == g_cons_ret && v_agg_result->f1 == v_this->f1 && g_inc_calls == 0)
+#define CONTRACT_CONSTRUCT3 \
+  __CPROVER_requires(g_cons_calls == 0) \
+  __CPROVER_assigns(REC_GHOSTS, CONS_GHOSTS) \
+  /* constructMTBDD(asgn, leaf(value), default, identity) */ \
+  __CPROVER_ensures(g_cons_calls == 1 && g_cons_asgn == v_asgn && ISLEAF(g_cons_node) && T_DATA[g_cons_node] == *v_value && g_cons_dflt == *v_defaultValue && __CPROVER_return_value == g_cons_ret && g_inc_calls == 0)
+#define CONTRACT_ACTOR \
+  __CPROVER_requires(g_cons_calls == 0) \
+  __CPROVER_assigns(REC_GHOSTS, CONS_GHOSTS, v_this->f0.f0, v_this->f1) \
+  __CPROVER_ensures(g_cons_calls == 1 && g_cons_asgn == v_asgn && g_cons_value == *v_value && g_cons_dflt == *v_defaultValue && v_this->f0.f0 == g_cons_ret && v_this->f1 == *v_defaultValue && g_inc_calls == 0)
